@@ -126,13 +126,20 @@ func run(c *h.Ctx, cs Case) {
 
 func draw(t *rapid.T) Case {
 	var cs Case
-	if rapid.IntRange(0, 9).Draw(t, "unstructured") == 0 {
-		// links drawn independently
+	if rapid.IntRange(0, 9).Draw(t, "unstructured") < 2 {
+		// links drawn independently, over four principals; the command is one of a few with a meaning of their own (under
+		// delegations for "/"), with or without the "ucan" argument such commands carry: the principal rules are the
+		// rules for every command
 		n := rapid.IntRange(0, 5).Draw(t, "n")
-		cs.Inv = chain.Inv{Iss: rapid.IntRange(0, 3).Draw(t, "iss"), Sub: rapid.IntRange(0, 3).Draw(t, "sub"), Aud: -1, Cmd: "/foo", NonceLen: 12}
+		icmd := rapid.SampledFrom([]string{"/foo", "/foo", "/ucan/revoke", "/ucan/revoke", "/ucan/attest", "/ucan", "/"}).Draw(t, "icmd")
+		lcmd := "/"
+		if icmd == "/foo" {
+			lcmd = "/foo"
+		}
+		cs.Inv = chain.Inv{Iss: rapid.IntRange(0, 3).Draw(t, "iss"), Sub: rapid.IntRange(0, 3).Draw(t, "sub"), Aud: -1, Cmd: icmd, NonceLen: 12, UcanArg: rapid.IntRange(0, 2).Draw(t, "ucanarg")}
 		for i := 0; i < n; i++ {
 			cs.Links = append(cs.Links, chain.Link{Iss: rapid.IntRange(0, 3).Draw(t, "li"), Aud: rapid.IntRange(0, 3).Draw(t, "la"),
-				Sub: rapid.IntRange(-1, 3).Draw(t, "ls"), Cmd: "/foo", Nonce: byte(i)})
+				Sub: rapid.IntRange(-1, 3).Draw(t, "ls"), Cmd: lcmd, Nonce: byte(i)})
 		}
 		cs.Dev = []string{"unstructured"}
 	} else {
